@@ -95,14 +95,27 @@ def h_clear(who, state, shape):
     eng = core.engine()
     S = MODS['ikesa'].IkeSa.State
     p, me, E, peer = build(who, state)
+    fp = None
     if shape == 'init_req':
         d0 = p.first_init_req()
+    elif shape == 'raw_payload':
+        # one cleartext payload of ARBITRARY UNKNOWN type, arbitrary critical/reserved octet and 4 arbitrary body bytes
+        d0 = clear_datagram(p, me, 'empty')
+        crit = eng.sym_int('critical_octet', 0, 255)
+        d0 = core.SymBytes.lift(d0[:24] + (36).to_bytes(4, 'big') + b'\0') + core.SymBytes([core.int_to_byte(crit)]) + b'\0\x08' + eng.sym_bytes('body', 4)
+        fp = eng.sym_int('payload_type', 1, 255)
+        # a type pyikev2 has no class for (the known ones: other shapes and C06); critical or not
+        for known in MODS['message'].Message.type_2_payload:
+            eng.assume(fp != int(known))
     else:
         d0 = clear_datagram(p, me, shape)
     exch = eng.sym_int('exch', 0, 255)
     flags = eng.sym_int('flags', 0, 255)
+    if shape == 'raw_payload':
+        # the sender's role flag is the peer's (other values: the other shapes); request/response and the remaining bits arbitrary
+        eng.assume(((flags & 0x08) != 0) != me.is_initiator)
     mid = eng.sym_int('mid', 0, 0xFFFFFFFF)
-    d = world.restamp(d0, None, exchange=exch, flags=flags, mid=mid)
+    d = world.restamp(d0, None, exchange=exch, flags=flags, mid=mid, first_payload=fp)
     world.ENV.now = world.ENV.now + 7          # the liveness timer would move if it were re-armed
     if me.state not in (S.INIT_RES_SENT, S.AUTH_REQ_SENT):
         # arbitrary counters: any history length (the stored response is then some encrypted response)
@@ -263,7 +276,7 @@ def h_trunc(who, state, kind, cut):
     return judge(eng, me, E, s0, dpd0, ret, exc)
 
 
-def h_ctl(layout_kind, how):
+def h_ctl(layout_kind, how, src=None):
     """controller level: a forged datagram carrying the SPIs of a listed IKE_SA must leave the table and the IKE_SA alone"""
     from symx import core
     eng = core.engine()
@@ -300,7 +313,7 @@ def h_ctl(layout_kind, how):
     dpd0 = e.start_dpd_at
     ret, exc = None, None
     try:
-        ret = c.dispatch(d)
+        ret = c.dispatch(d, peer_addr=src) if src is not None else c.dispatch(d)
     except Exception as ex:      # noqa
         exc = ex
     if len(c.ctl.ike_sas) != len(table0) or any(x is not y for x, y in zip(table0, c.ctl.ike_sas)):
@@ -310,7 +323,8 @@ def h_ctl(layout_kind, how):
 
 KEYED_A = tuple(s for s in world.ALL_STATES_A if s != 'INIT_REQ_SENT')
 KEYED_B = world.ALL_STATES_B
-SHAPES = ('empty', 'delete_ike', 'delete_esp', 'notify_auth_failed', 'notify_cookie', 'sa_nonce_ke', 'child_sa', 'init_req')
+FOREIGN = __import__('ipaddress').ip_address('203.0.113.9')
+SHAPES = ('raw_payload', 'empty', 'delete_ike', 'delete_esp', 'notify_auth_failed', 'notify_cookie', 'sa_nonce_ke', 'child_sa', 'init_req')
 
 
 def build_instances(tier):
@@ -343,6 +357,8 @@ def build_instances(tier):
     for lk in ('half_open', 'established'):
         for how in ('cleartext', 'icv'):
             inst.append(Instance(f'controller {lk} {how}', h_ctl, (lk, how), native=nat(h_ctl), must_reach=reached))
+            # the same datagram arriving from an address that is not the peer's
+            inst.append(Instance(f'controller {lk} {how} from a foreign address', h_ctl, (lk, how, FOREIGN), native=nat(h_ctl), must_reach=reached))
     return inst
 
 
